@@ -15,11 +15,16 @@
    - OER: refuted (SET_OF_encode_oer writes the members in memory order);
    - the strip loop maps all contents octets denoting one integer to one octet string;
    - compare_struct on INTEGER_t (coq/Rt/CanonicalCompare.v) is the order of the values.
+   - canonical order against length fragmentation (coq/Rt/CanonicalFrag.v): the UPER of a
+     SET OF is the fragments of the sorted WHOLE list (not sorted fragments); that is
+     permutation-invariant for any fragment unit and any length; sorting inside the
+     fragment loop agrees up to K members and is refuted beyond.
    DEFAULT materialisation, BIT STRING unused bits, wide INTEGER_t in PER/OER/XER and
    CANONICAL-XER are outside the modelled algebra: tie only. *)
 From Coq Require Import ZArith List Bool Permutation Sorted.
 From A1 Require Import Base.Bytes Leaf.IntegerConv Rt.Types Rt.Comb Rt.Der Rt.Uper Rt.Oer
-  Rt.Canonical Rt.CanonicalProofs Rt.CanonicalCompare Rt.CanonicalCompareProofs.
+  Rt.Canonical Rt.CanonicalProofs Rt.CanonicalCompare Rt.CanonicalCompareProofs
+  Rt.CanonicalFrag Rt.CanonicalFragProofs.
 Import ListNotations.
 Local Open Scope Z_scope.
 
@@ -122,3 +127,58 @@ Theorem C06_integer_compare_representation_independent : forall a1 a2 b1 b2,
   int_compare a1 b1 = int_compare a2 b2.
 Proof. exact int_compare_same_value. Qed.
 Print Assumptions C06_integer_compare_representation_independent.
+
+(* Canonical order against length fragmentation (X.691 11.9 / 22.1; seeded change C06-4).
+   [chunks K] is the split made by the loop around uper_put_length (fragment unit K,
+   16384 in X.691 and in the C), [render K] writes every fragment under the length
+   determinant its own size decides, [frag_whole K] fragments the sorted list,
+   [frag_each K] sorts each fragment of the list as it is in memory. *)
+Theorem C06_counted_is_fragments_in_order : forall items,
+  counted items = render 16384 (chunks 16384 (S (length items)) items)
+  /\ concat (chunks 16384 (S (length items)) items) = items.
+Proof. exact counted_fragments. Qed.
+Print Assumptions C06_counted_is_fragments_in_order.
+
+Theorem C06_fragment_loop_is_render_of_chunks : forall K, 0 < K -> forall fuel items,
+  put_counted_g K fuel items = render K (chunks K fuel items).
+Proof. exact put_counted_g_render. Qed.
+Print Assumptions C06_fragment_loop_is_render_of_chunks.
+
+Theorem C06_fragment_loop_16K_is_model : forall fuel items,
+  put_counted_g 16384 fuel items = put_counted fuel items.
+Proof. exact put_counted_g_16K. Qed.
+Print Assumptions C06_fragment_loop_16K_is_model.
+
+Theorem C06_uper_setof_sorts_whole_list : forall std tg s e vs es,
+  option_all (map (uper std e) vs) = Some es ->
+  uper std (TSetOf tg s e) (VList vs) = sized s (sort_bit_encodings es)
+  /\ Permutation (sort_bit_encodings es) es
+  /\ StronglySorted (fun a b => key_leb a b = true) (sort_bit_encodings es).
+Proof. exact uper_setof_sorts_whole_list. Qed.
+Print Assumptions C06_uper_setof_sorts_whole_list.
+
+Theorem C06_uper_setof_fragments_of_sorted : forall std tg e vs es,
+  option_all (map (uper std e) vs) = Some es ->
+  uper std (TSetOf tg (SCon 0 None false) e) (VList vs) = Some (frag_whole 16384 es)
+  /\ concat (chunks 16384 (S (length es)) (sort_bit_encodings es)) = sort_bit_encodings es.
+Proof. exact uper_setof_fragments_of_sorted. Qed.
+Print Assumptions C06_uper_setof_fragments_of_sorted.
+
+Theorem C06_fragments_of_sorted_perm_invariant : forall K l1 l2,
+  (forall x y, In x l1 -> In y l1 -> pad_key x = pad_key y -> x = y) ->
+  Permutation l1 l2 -> frag_whole K l1 = frag_whole K l2.
+Proof. exact frag_whole_perm. Qed.
+Print Assumptions C06_fragments_of_sorted_perm_invariant.
+
+Theorem C06_per_fragment_sort_agrees_up_to_one_unit : forall K l,
+  0 < K -> zlen l <= K -> frag_each K l = frag_whole K l.
+Proof. exact frag_each_small. Qed.
+Print Assumptions C06_per_fragment_sort_agrees_up_to_one_unit.
+
+Theorem C06_per_fragment_sort_perm_refuted :
+  exists K l1 l2, 0 < K /\ Permutation l1 l2
+    /\ (forall x y, In x l1 -> In y l1 -> pad_key x = pad_key y -> x = y)
+    /\ frag_whole K l1 = frag_whole K l2
+    /\ frag_each K l1 <> frag_each K l2.
+Proof. exact frag_each_perm_refuted. Qed.
+Print Assumptions C06_per_fragment_sort_perm_refuted.
